@@ -1,6 +1,7 @@
 package main
 
 import (
+	"errors"
 	"fmt"
 	"math/rand"
 	"path/filepath"
@@ -8,6 +9,9 @@ import (
 	"strings"
 	"sync"
 
+	"github.com/lindb/lindb/constants"
+	"github.com/lindb/lindb/models"
+	"github.com/lindb/lindb/series/metric"
 	"github.com/lindb/lindb/verif/internal/seam"
 )
 
@@ -293,4 +297,80 @@ func relookupLive(o *observations, d *dbset, stage string) {
 		o.observe(96, k.kind, k.scope, k.name, id, call, o.tick())
 	}
 	o.count("names_looked_up_on_the_running_node", len(items))
+}
+
+// caseLimits: series ids under a small series limit. A request over the limit is refused (ErrTooManySeries), which is
+// not an id; every id that IS returned must still be a stable injective function of the tag set - also for tag sets
+// that were refused before, asked again, interleaved with accepted ones, across flush and reopen.
+func caseLimits(res *caseResult, idx int, dir string, seed int64, tier string) {
+	r := rand.New(rand.NewSource(seed*911 + int64(idx)*37 + 3))
+	limit := uint32(2 + r.Intn(4))
+	res.Config = fmt.Sprintf("series-limit=%d", limit)
+	lim := models.NewDefaultLimits()
+	lim.MaxSeriesPerMetric = limit
+	models.SetDatabaseLimits("db", lim)
+	defer models.SetDatabaseLimits("db", models.NewDefaultLimits())
+	root := filepath.Join(dir, "db")
+	o := newObs(res)
+	d, err := openDBs(root, 1)
+	if err != nil {
+		o.fail("C09/open-fails", "%v", err)
+		return
+	}
+	mkRow := func(m, i int) rowSpec {
+		return rowSpec{NS: "ns", Metric: fmt.Sprintf("lim-m%d", m), Tags: [][2]string{{"host", fmt.Sprintf("h%d", i)}},
+			Fields: []fieldSpec{{Name: "f", Type: fieldTypes[0]}}}
+	}
+	ask := func(db *dbset, row rowSpec) {
+		data, err := row.bytes()
+		if err != nil {
+			return
+		}
+		sr := &metric.StorageRow{}
+		sr.Unmarshal(data)
+		mid, err := db.meta.GenMetricID(sr.NameSpace(), sr.Name())
+		if err != nil {
+			o.fail("C09/gen-fails", "GenMetricID: %v", err)
+			return
+		}
+		call := o.tick()
+		sid, err := db.idx[0].GenSeriesID(mid, sr)
+		ret := o.tick()
+		if errors.Is(err, constants.ErrTooManySeries) {
+			o.count("limits.requests_refused", 1)
+			return
+		}
+		if err != nil {
+			o.fail("C09/gen-fails", "GenSeriesID: %v", err)
+			return
+		}
+		o.count("limits.ids_returned", 1)
+		o.observe(1, "series", fmt.Sprintf("shard=0,metric=%d", mid), row.tagString(), sid, call, ret)
+	}
+	metrics := 2 + r.Intn(2)
+	total := int(limit) + 4
+	for step := 0; step < 60; step++ {
+		ask(d, mkRow(r.Intn(metrics), r.Intn(total)))
+		if step%20 == 19 {
+			d.meta.PrepareFlush()
+			_ = d.meta.Flush()
+			d.idx[0].PrepareFlush()
+			_ = d.idx[0].Flush()
+		}
+	}
+	_ = d.close()
+	d2, err := openDBs(root, 1)
+	if err != nil {
+		o.fail("C09/reopen-fails", "%v", err)
+		return
+	}
+	o.phase.Store("reopen")
+	for step := 0; step < 40; step++ {
+		ask(d2, mkRow(r.Intn(metrics), r.Intn(total)))
+	}
+	_ = d2.close()
+	if res.Counters["limits.requests_refused"] > 0 {
+		res.Nontrivial = append(res.Nontrivial, fmt.Sprintf("limits%d", idx))
+	}
+	res.Sample = map[string]interface{}{"kind": "limits", "config": res.Config}
 }
